@@ -311,3 +311,31 @@ fn make_digits(a: &impl BigInteger, w: usize, num_bits: usize) -> impl Iterator<
         digit
     })
 }
+
+/// Thin public wrappers around the private MSM kernels, for the runtime monitors in `/verif`.
+/// Compiled only with the (off by default) `verif-hooks` feature; adds no behaviour.
+#[cfg(feature = "verif-hooks")]
+pub mod verif_hooks {
+    use super::*;
+
+    /// The plain bucket method (used by `msm_bigint` when negation is not cheap).
+    pub fn msm_bigint_plain<V: VariableBaseMSM>(
+        bases: &[V::MulBase],
+        bigints: &[<V::ScalarField as PrimeField>::BigInt],
+    ) -> V {
+        super::msm_bigint(bases, bigints)
+    }
+
+    /// The signed-digit bucket method (used by `msm_bigint` when negation is cheap).
+    pub fn msm_bigint_signed<V: VariableBaseMSM>(
+        bases: &[V::MulBase],
+        bigints: &[<V::ScalarField as PrimeField>::BigInt],
+    ) -> V {
+        super::msm_bigint_wnaf(bases, bigints)
+    }
+
+    /// The signed base-2^w digits of `a`.
+    pub fn make_digits_vec(a: &impl BigInteger, w: usize, num_bits: usize) -> Vec<i64> {
+        super::make_digits(a, w, num_bits).collect()
+    }
+}
